@@ -127,6 +127,7 @@ type delivery struct {
 	closeAfter   bool          // close the connection right after responding
 	silentAfter  bool          // respond, then never answer anything again
 	raw          []byte        // replaces the serialised response when non-nil
+	post         [][]byte      // raw bytes written in the SAME write as the response, behind it
 	chatter      []byte        // written every chatterEvery, chatterN times, while the response is withheld
 	chatterEvery time.Duration
 	chatterN     int
@@ -520,6 +521,9 @@ func (s *server) handle(sc *sconn, req *base.Request) bool {
 		out := d.raw
 		if out == nil {
 			out = r.bytes()
+		}
+		for _, p := range d.post {
+			out = append(append([]byte{}, out...), p...)
 		}
 		s.write(sc, out)
 		if d.dup {
